@@ -37,7 +37,8 @@ def verify_first(ctx):
     ctx.check(ok, rb.key, 'verify(msk, usk)', 'verify is not applied to the caller\'s master key and user key', 'verify(msk, usk)', v.where())
     # its error is propagated
     ts = [t for t in lib.try_sites(rb) if t.src_def is not None and t.src_def.kind == 'call' and t.src_def.call is v]
-    okp = len(ts) == 1 and ts[0].residual is not None and ts[0].residual.dest['l'] == 0
+    okp = len(ts) == 1 and ts[0].residual is not None and not ts[0].residual.dest['p'] and \
+        (ts[0].residual.dest['l'] == 0 or lib.flows_to(rb, ts[0].residual.dest['l']))
     ctx.check(okp, rb.key, 'verify(..)?', 'the result of verify is not propagated with `?`: a forged key is refreshed anyway',
               'error returned', v.where())
     if not okp:
@@ -54,8 +55,8 @@ def verify_first(ctx):
             ctx.bad(rb.key, 'call before verify(%s)' % c.name, '%s (line %d) runs before the integrity check' % (c.full[:60], c.ln), c.where())
             continue
         n += 1
-        if c.is_(r'FromResidual::from_residual$'):
-            continue
+        if c.is_(r'FromResidual::from_residual$', r'^std::ops::Try::branch$'):
+            continue      # `?` plumbing (also the one that relays verify's own error out of an inlined helper): pure
         ctx.check(rb.edge_dominates((sw, cont), c.b), rb.key, '%s <= verified' % c.name,
                   '%s (line %d) can run although verify failed or was skipped' % (c.full[:70], c.ln), 'after the Ok edge of verify', c.where())
     MA = lib.MutAnalysis(F)
@@ -179,7 +180,18 @@ def mac_covers(ctx):
                   'the signature (transcript: %s)' % (need, h.events), 'absorbed', sb.where())
     # keyed with the master signing key, and the result is what is returned
     key_roots = [r for r in root_descr(sb, h.ctor.args[0]) if r[0] == 'param']
-    ctx.check(any('signing_key' in r[2] for r in key_roots), sb.key, 'keyed by msk.signing_key',
+    keyed = any('signing_key' in r[2] for r in key_roots)
+    if not keyed and key_roots and all('SymmetricKey' in sb.local_ty(r[1]) for r in key_roots):
+        # the key is handed in by the callers: each of them must pass the signing key of the master key
+        sites = [c for fb in F.fns() for c in fb.calls(r'primitives::sign$') if lib.local_callee(F, c) is sb]
+        keyed = bool(sites)
+        for c in sites:
+            for r in key_roots:
+                a = c.args[r[1] - 1] if r[1] - 1 < len(c.args) else None
+                rs = [x for x in root_descr(c.body, a)] if a is not None else []
+                if not any(x[0] == 'param' and 'signing_key' in x[2] and 'MasterSecretKey' in c.body.local_ty(x[1]) for x in rs):
+                    keyed = False
+    ctx.check(keyed, sb.key, 'keyed by msk.signing_key',
               'the KMAC is not keyed with the master signing key', 'Kmac::v256(signing_key, ..)', h.ctor.where())
     ctx.floor(len(h.events), 5, 'KMAC update sites')
     # order: markers, then per right: right, then its secrets (key order)
